@@ -189,6 +189,8 @@ func rowsKV(rows [][2]uint64) [][]any {
 }
 
 type c12Drv struct {
+	kept     []byte // the previous MarshalJSON rendering, and its text at the time
+	keptText string
 	pooled  *vegeta.Histogram
 	reps    map[*vegeta.Histogram]vegeta.Reporter
 	tr      *Tracer
@@ -212,6 +214,12 @@ func (d *c12Drv) render(h *vegeta.Histogram) {
 			d.tr.Emit("Panic", KV{"what": "MarshalJSON", "value": err.Error()})
 			return
 		}
+		// a rendering belongs to whoever asked for it: the one kept from the previous call (this histogram's or another's) is
+		// still what it was
+		if d.kept != nil && string(d.kept) != d.keptText {
+			d.tr.Emit("Panic", KV{"what": "an earlier MarshalJSON rendering changed when a later one was made", "value": d.keptText + " -> " + string(d.kept)})
+		}
+		d.kept, d.keptText = bs, string(bs)
 		rows, err := parseHistJSON(bs)
 		if err != nil {
 			d.tr.Emit("Panic", KV{"what": "MarshalJSON output", "value": err.Error()})
